@@ -48,12 +48,14 @@ def run(ctx):
     ctx.rule("C02.R4", "K6", "worker siblings: connection reused only after should_close() was consulted and false; one resp.close() per request")
     ctx.rule("C02.R5", "K3", "send_headers precedes every body send")
     ctx.rule("C02.R6", "K10", "list-valued Connection field compared per element over all field lines")
+    ctx.rule("C02.R7", "K1", "the file wrapper's iteration (fallback of write_file) ends only when read() returned nothing")
     r1(ctx)
     r2(ctx)
     r3(ctx)
     r4(ctx)
     r5(ctx)
     r6(ctx)
+    r7(ctx)
 
 
 STATUS_CLASS = {100: "1xx", 101: "1xx", 199: "1xx", 200: "other", 204: "204", 304: "304", 404: "other", 500: "other"}
@@ -378,7 +380,22 @@ def r4(ctx):
                 ctx.check("C02.R4", ok3, key(f, "should_close-after-close"), site(f, t), "should_close() is consulted before the response is finished", "consulted after resp.close()")
         # error after headers were sent: shut the connection and leave through StopIteration
         hs_tests = [t for t in g.tests() if isinstance(t.ast, ast.Attribute) and t.ast.attr == "headers_sent"]
-        ctx.need(hs_tests, "C02.R4: no `resp.headers_sent` test in %s" % q)
+        # the plain re-raise of the `except Exception` clause hands the exception to handle(), which writes an error
+        # *response*: that is only allowed while no byte of this response is on the wire
+        rer = [n for n in g.stmts(ast.Raise) if n.ast.exc is None and (lambda h: h is not None and h.type is not None and norm(h.type) == "Exception")(f.module.enclosing(n.ast, ast.ExceptHandler))]
+        ctx.need(rer, "C02.R4: no re-raise in the `except Exception` clause of %s" % q)
+
+        def sent_recog(e):
+            if isinstance(e, ast.Attribute) and e.attr == "headers_sent":
+                return +1
+            if isinstance(e, ast.Name) and e.id == resp:
+                return -1              # no response object yet: nothing was sent
+            return None
+        p, hits = guard_check(f, rer, sent_recog)
+        ctx.check("C02.R4", p is None, key(f, "error-reply-only-before-head"), site(f, rer[0]),
+                  "an application error is passed on to handle_error() (which writes a complete 500 response) without `%s.headers_sent` having been found false: "
+                  "when the head is already on the wire the error page lands inside / behind the first response" % resp,
+                  "re-raise only when no head was sent", path=p and g.fmt_path(p))
         for t in hs_tests:
             r = g.reachable([(t, "true")], follow_exc=True)
             leaves = g.exit not in r
@@ -480,3 +497,31 @@ def r6(ctx):
               "Connection is a comma-separated list that may span several field lines, but it is compared as a whole with 'close'/'keep-alive' and only the first "
               "line is looked at: " + "; ".join(bad_multi[:4]) + (" ..." if len(bad_multi) > 4 else ""),
               "per-element comparison over all Connection lines (%d list rows)" % (len(multi) * 4))
+
+
+def r7(ctx):
+    repo = ctx.repo
+    f = ctx.fn(repo.func(WSGI + ".FileWrapper.__getitem__"))
+    g = f.cfg
+    reads = [s for s in g.stmts(ast.Assign) if isinstance(s.ast.value, ast.Call) and isinstance(s.ast.value.func, ast.Attribute) and s.ast.value.func.attr == "read" and isinstance(s.ast.targets[0], ast.Name)]
+    ctx.need(len(reads) == 1, "C02.R7: FileWrapper.__getitem__ does not read one block")
+    D = reads[0].ast.targets[0].id
+    ends = [n for n in g.nodes if n.always_raises]
+    ctx.need(ends, "C02.R7: FileWrapper.__getitem__ never ends the iteration")
+
+    def eof(e):
+        if isinstance(e, ast.Name) and e.id == D:
+            return +1          # C = 'the read returned data'; the iteration may end only on its false edge
+        return None
+    p, hits = guard_check(f, ends, eof, kills=[k for k in reads])
+    ctx.check("C02.R7", p is None, key(f, "ends-only-at-eof"), site(f, ends[0]),
+              "the file wrapper can stop iterating (IndexError) without read() having returned an empty block: a short read (pipe, socket, decompressor) truncates the body "
+              "while Content-Length / keep-alive stay as announced", "IndexError only when read() returned b''", path=p and g.fmt_path(p))
+    rets = [n for n in g.stmts(ast.Return)]
+    ctx.check("C02.R7", bool(rets) and all(isinstance(r.ast.value, ast.Name) and r.ast.value.id == D for r in rets), key(f, "returns-what-it-read"), site(f),
+              "the wrapper does not hand out exactly the block it read", "returns the block")
+    ctx.check("C02.R7", "blksize" in norm(reads[0].ast.value), key(f, "reads-blksize"), site(f, reads[0]), "the wrapper does not read blksize bytes per step", "read(self.blksize)")
+    fw = ctx.fn(repo.func(RESP + ".write_file"))
+    loop = [n for n in fw.cfg.nodes if n.kind == "for"]
+    ctx.check("C02.R7", len(loop) == 1 and norm(loop[0].ast.iter) == fw.params[1] and any("write(" in b.text for b in fw.cfg.reachable([(loop[0], "true")], follow_exc=False, stop=lambda n: n is loop[0])),
+              key(fw, "writes-every-block"), site(fw), "write_file does not write every block of the wrapper when sendfile is not used", "for item in respiter: write(item)")
